@@ -2705,12 +2705,31 @@ func (te *TemplateEngine) renderTableTemplate(table *Table, data *TemplateData) 
 		return nil
 	}
 
+	// 循环行之外的行（表头、合计行……）里的普通变量照常替换
+	replaceInPlainRows := func(rows []TableRow) error {
+		for i := range rows {
+			for j := range rows[i].Cells {
+				for k := range rows[i].Cells[j].Paragraphs {
+					if err := te.replaceVariablesInParagraph(&rows[i].Cells[j].Paragraphs[k], data); err != nil {
+						return err
+					}
+				}
+				for k := range rows[i].Cells[j].Tables {
+					if err := te.replaceVariablesInTable(&rows[i].Cells[j].Tables[k], data); err != nil {
+						return err
+					}
+				}
+			}
+		}
+		return nil
+	}
+
 	// 获取列表数据
 	listData, exists := data.Lists[listVarName]
 	if !exists || len(listData) == 0 {
 		// 删除模板行
 		table.Rows = append(table.Rows[:templateRowIndex], table.Rows[templateRowIndex+1:]...)
-		return nil
+		return replaceInPlainRows(table.Rows)
 	}
 
 	// 保存模板行
@@ -2721,6 +2740,9 @@ func (te *TemplateEngine) renderTableTemplate(table *Table, data *TemplateData) 
 	for _, row := range table.Rows[:templateRowIndex] {
 		clonedRow := te.cloneTableRow(&row)
 		newRows = append(newRows, *clonedRow)
+	}
+	if err := replaceInPlainRows(newRows); err != nil {
+		return err
 	}
 
 	// 为每个数据项生成新行
@@ -2831,9 +2853,13 @@ func (te *TemplateEngine) renderTableTemplate(table *Table, data *TemplateData) 
 	}
 
 	// 保留模板行之后的行（深度克隆以保持样式）
+	tailStart := len(newRows)
 	for _, row := range table.Rows[templateRowIndex+1:] {
 		clonedRow := te.cloneTableRow(&row)
 		newRows = append(newRows, *clonedRow)
+	}
+	if err := replaceInPlainRows(newRows[tailStart:]); err != nil {
+		return err
 	}
 
 	// 更新表格行
